@@ -4,14 +4,14 @@ from props import stacklib as L
 
 ID = "C12"
 COQ_PROPS = "Props/C12.v"
-THEOREMS = ["C12_history", "C12_fresh", "C12_no_ties", "C12_files", "C12_dtype"]
+THEOREMS = ["C12_history", "C12_queries", "C12_trace", "C12_fresh", "C12_no_ties", "C12_files", "C12_dtype"]
 ALLOWED_AXIOMS = []
 RULE = ("synthetic in-memory DICOM series (grids S<=4 x T<=3 x V<=3, 7 orientations x 2 slice directions, explicit "
         "(plain key, abs_ordering, abs_as_str) or guessed ordering keys, complete or with a dropped / duplicated / "
         "misfiled / pixel-less file or an irregular gap; single-file stacks (10 %) and four-file stacks (20 %); per-file "
         "BitsStored / PixelRepresentation / pixel range / AcquisitionTime presence varied; several RepetitionTime values "
         "(incl. pairs colliding in an 8-slot hash table) and mixed phase directions; default extractor or a hand-built "
-        "meta argument) x random histories: adds in random order interleaved with shape / data / affine queries and "
+        "meta argument; default or a custom meta_filter (regex filters excluding Time / Bits / the guess keys / InstanceNumber / everything, lambdas) in 30 %) x random histories: adds in random order interleaved with shape / data / affine queries and "
         "conversions (8 voxel orders and None, embed on/off, to_nifti_wrapper), sometimes a first partial history "
         "ended by clear(), the caller scribbling over returned arrays / images / extensions, ending in one conversion. "
         "EVERY query and conversion of the history is compared by value (array, affine, header fields, embedded JSON, "
@@ -117,7 +117,13 @@ def gen_cases(rng, tier):
             ops.append(['add', i])
             if early and rng.random() < 0.25:
                 ops.append(rand_query(rng))
+        mfilter = rng.choice(L.META_FILTERS) if rng.random() < 0.3 else None
+        if mfilter is not None:
+            # a custom meta_filter: an embedding conversion must not change what the stack itself reads later
+            ops.append(['nifti', rng.choice(VOS), True] if rng.random() < 0.8 else ['wrapper', rng.choice(VOS)])
         nq = rng.choice([0, 1, 1, 2, 2, 3, 4, 6]) if not single else rng.choice([2, 3, 4, 6])
+        if mfilter is not None:
+            nq = max(nq, 2)
         for _ in range(nq):
             q = rand_query(rng)
             if single and rng.random() < 0.7:
@@ -136,6 +142,8 @@ def gen_cases(rng, tier):
                 'nfresh': (24 if tier != 'quick' else 6) if (small or hdr) else 2}
         if rng.random() < 0.1:
             case['meta_arg'] = True
+        if mfilter is not None:
+            case['meta_filter'] = mfilter
         case.update(L.case_header(cfg))
         case['files'] = files
         case['ops'] = ops
@@ -269,3 +277,14 @@ def nontrivial(case, obs):
 
 def shrink(case):
     return L.shrink_files(case)
+
+
+# end-to-end composition (integrator): conv_full (coq/Conv/Full.v) composes the sorter, the geometry half and the embed step as
+# DicomStack.to_nifti does; Props/C12full.v lifts history independence to the REAL outputs (array, affine, header fields, embedded
+# extension), and FullCorr carries random histories INTO the Coq case (model after the same calls vs the observation)
+from props import convfull as _convfull
+COQ_PROPS = (list(COQ_PROPS) if isinstance(COQ_PROPS, (list, tuple)) else [COQ_PROPS]) + ['Props/C12full.v']
+THEOREMS = list(THEOREMS) + ['C12_full_dependency', 'C12_full_history', 'C12_full_fresh', 'C12_full_resorted', 'C12_full_conv_state', 'C12_full_hist_history']
+COQ_EXTRA_TARGETS = list(globals().get('COQ_EXTRA_TARGETS') or []) + ['Conv/FullCorr.vo']
+TABLES = sorted(set(list(globals().get('TABLES') or []) + ['t_classes', 't_ext_tol', 't_stack', 't_filter', 't_time', 't_conv']))
+PARTS = list(globals().get('PARTS') or [__import__('sys').modules[__name__]]) + [_convfull.FullPart]
